@@ -6,21 +6,28 @@
 (* of an unambiguous tree must succeed with closure (one instance node,    *)
 (* one bind, one control per question).                                    *)
 (* State: the multiset of question names under the root and under one      *)
-(* group.  Operations: AddRoot(n), AddGroup(n), Render.                    *)
+(* group.  Operations: AddRoot(n), AddGroup(n), Render, and Mark: the      *)
+(* caller gives the base question q0 a logic attribute through its bind    *)
+(* (C05: that attribute belongs to q0's bind and to no other element's).   *)
+(* `inspect`: the caller looks at each new element (its xpath) BEFORE      *)
+(* attaching it - an observation that must not change any later render.    *)
 (***************************************************************************)
 EXTENDS Naturals, Sequences, FiniteSets, TLC
 CONSTANTS Names, MaxOps
-VARIABLES root, grp, hist, last
-svars == <<root, grp, hist, last>>
-SOInit == root = <<"q0">> /\ grp = <<"g0">> /\ hist = <<>> /\ last = "none"
+VARIABLES root, grp, hist, last, inspect, marked
+svars == <<root, grp, hist, last, inspect, marked>>
+SOInit == root = <<"q0">> /\ grp = <<"g0">> /\ hist = <<>> /\ last = "none" /\ inspect \in BOOLEAN /\ marked = FALSE
 Dup(s) == \E i, j \in 1..Len(s) : i # j /\ s[i] = s[j]
 \* the group itself is a child of the root named "grp"
 Ambiguous == Dup(root \o <<"grp">>) \/ Dup(grp)
-AddRoot(n) == Len(hist) < MaxOps /\ root' = Append(root, n) /\ hist' = Append(hist, <<"add_root", n>>) /\ UNCHANGED <<grp, last>>
-AddGroup(n) == Len(hist) < MaxOps /\ grp' = Append(grp, n) /\ hist' = Append(hist, <<"add_group", n>>) /\ UNCHANGED <<root, last>>
-Render == Len(hist) < MaxOps /\ last' = (IF Ambiguous THEN "rejected" ELSE "ok") /\ hist' = Append(hist, <<"render", last'>>) /\ UNCHANGED <<root, grp>>
-SONext == (\E n \in Names : AddRoot(n) \/ AddGroup(n)) \/ Render
+AddRoot(n) == Len(hist) < MaxOps /\ root' = Append(root, n) /\ hist' = Append(hist, <<"add_root", n>>) /\ UNCHANGED <<grp, last, inspect, marked>>
+AddGroup(n) == Len(hist) < MaxOps /\ grp' = Append(grp, n) /\ hist' = Append(hist, <<"add_group", n>>) /\ UNCHANGED <<root, last, inspect, marked>>
+Mark == Len(hist) < MaxOps /\ ~marked /\ marked' = TRUE /\ hist' = Append(hist, <<"mark", "q0">>) /\ UNCHANGED <<root, grp, last, inspect>>
+Render == Len(hist) < MaxOps /\ last' = (IF Ambiguous THEN "rejected" ELSE "ok") /\ hist' = Append(hist, <<"render", last'>>) /\ UNCHANGED <<root, grp, inspect, marked>>
+SONext == (\E n \in Names : AddRoot(n) \/ AddGroup(n)) \/ Mark \/ Render
 SOSpec == SOInit /\ [][SONext]_svars
 \* an accepted render implies an unambiguous tree at that moment (the history does not matter)
 AcceptedMeansUnambiguous == (Len(hist) > 0 /\ hist[Len(hist)][1] = "render" /\ hist[Len(hist)][2] = "ok") => ~Ambiguous
+\* the elements whose bind carries the attribute given by Mark: the base question alone
+MarkedPaths == IF marked THEN {<<"q0">>} ELSE {}
 =============================================================================
